@@ -217,8 +217,18 @@ class Verifier(Stmts):
         raise Unsupported('dict.update with %s' % a.t)
 
     # str / bytes
-    def bm_str_startswith(self, st, r, args, kw, node): return [(st, mk_bool(z3.PrefixOf(args[0].z, r.z)))]
-    def bm_str_endswith(self, st, r, args, kw, node): return [(st, mk_bool(z3.SuffixOf(args[0].z, r.z)))]
+    def bm_str_startswith(self, st, r, args, kw, node):
+        a = args[0]
+        if isinstance(a.t, TupleT): return [(st, mk_bool(z3.Or(*[z3.PrefixOf(tup_get(a.t, a.z, i), r.z) for i in range(len(a.t.elems))])))]
+        return [(st, mk_bool(z3.PrefixOf(a.z, r.z)))]
+    def bm_str_endswith(self, st, r, args, kw, node):
+        a = args[0]
+        if isinstance(a.t, TupleT): return [(st, mk_bool(z3.Or(*[z3.SuffixOf(tup_get(a.t, a.z, i), r.z) for i in range(len(a.t.elems))])))]
+        return [(st, mk_bool(z3.SuffixOf(a.z, r.z)))]
+    def bm_str_lstrip(self, st, r, args, kw, node):
+        h = self.reg.find_model('str.lstrip')
+        if h is not None: return h(self, st, [r] + args, kw, node)
+        raise Unsupported('str.lstrip')
     bm_bytes_startswith = bm_str_startswith; bm_bytes_endswith = bm_str_endswith
     def bm_str_encode(self, st, r, args, kw, node):
         f = z3.Function('utf8_encode', z3.StringSort(), sort_of(BYTES)); self.use_axiom('utf8')
